@@ -45,6 +45,16 @@ def install(interp):
                 td = b.elem_cls
         return SeqV(i.seq_of_base(ops.subseq(z, z3.IntVal(0), kk), td or TypeDesc('str'), path))
 
+    def extern_of(i, path, args, kw):
+        from .values import DtV
+        fct, ids, scope = args
+        ext = i.load_module('dznpy.ast').globals['Extern']
+        f = z3.Function('ghost.extern_of', ids.expr.sort(), scope.expr.sort(), i.sorts.sort_of_class(ext))
+        v = DtV(ext, f(ids.expr, scope.expr))
+        i.apply_class_invs(v, path)
+        return v
+
+    interp.overrides['specs.ghost.extern_of'] = extern_of
     interp.overrides['specs.ghost.prefix'] = prefix
     for name, f in (('all_ws', all_ws), ('no_break', no_break), ('is_ident', is_ident), ('implies', implies)):
         interp.overrides[f'specs.ghost.{name}'] = f
